@@ -484,3 +484,119 @@ def cdm_model(u: Unit):
                                                                                                z3.Real("max_electron_volume") <= 1, z3.Real("transfer_period") >= 0, z3.Real("transfer_period") <= 10), {}, CDM_REPLAY)
         u.cover(f"model.cdm.cover[{direction}]", ps, lambda p: p.kind == "return")
         u.cover(f"model.cdm.cover_refusal[{direction}]", ps, lambda p: p.kind == "raise")
+
+
+# ---- the persistence model with density / capacity maps ---------------------------------------------------------------------------------
+FULLP_REPLAY = lambda w: {"code": """
+import numpy as np, tempfile, os, importlib
+M = importlib.import_module('pyxel.models.charge_collection.persistence')
+from pyxel.detectors import CMOS, CMOSGeometry, Characteristics, Environment
+got = {}
+def fake(pixel_array, all_trapped_charge, trap_proportions, trap_time_constants, trap_densities_2d, delta_t, trap_capacities_2d=None):
+    got.update(pix=pixel_array.copy(), trapped=all_trapped_charge.copy(), prop=np.array(trap_proportions), tau=np.array(trap_time_constants), dens=np.array(trap_densities_2d), dt=delta_t,
+               cap=None if trap_capacities_2d is None else np.array(trap_capacities_2d))
+    return pixel_array - 1.0, all_trapped_charge + 0.5
+M.compute_persistence = fake
+d = tempfile.mkdtemp(); fd = os.path.join(d, 'dens.npy'); fc = os.path.join(d, 'cap.npy')
+dens = np.array([[0.1, 0.2, -0.3, 0.4], [0.5, np.nan, 0.7, 0.8], [0.9, 1.0, 0.0, 0.25]]); cap = np.arange(12.0).reshape(3, 4) * 10
+np.save(fd, dens); np.save(fc, cap)
+det = CMOS(geometry=CMOSGeometry(row=3, col=4), environment=Environment(), characteristics=Characteristics())
+det.set_readout(times=[2.0, 5.0], start_time=0.0); det.readout_properties.time_step = 3.0
+x = np.arange(12.0).reshape(3, 4) + 10; det.pixel.array = x.copy()
+VIOLATED, DETAIL = False, 'the kernel gets the detector state, the maps of the named files and the arguments under their own names; its results are stored'
+M.persistence(det, trap_time_constants=[10.0, 1.0], trap_proportions=[0.2, 0.3], trap_densities_filename=fd, trap_capacities_filename=fc)
+want_d = np.nan_to_num(np.clip(dens, 0, None), nan=0.0)
+if (not np.array_equal(got['pix'], x) or got['prop'].tolist() != [0.2, 0.3] or got['tau'].tolist() != [10.0, 1.0] or got['dt'] != 3.0 or not np.allclose(got['dens'], want_d) or got['cap'] is None
+        or not np.array_equal(got['cap'], cap) or not np.array_equal(det.pixel.array, x - 1.0) or not np.array_equal(det.persistence.trapped_charge_array, np.full((2, 3, 4), 0.5))):
+    VIOLATED, DETAIL = True, f"kernel got proportions {got['prop'].tolist()} time constants {got['tau'].tolist()} dt {got['dt']} density map {got['dens'][0].tolist()} capacity map {None if got['cap'] is None else got['cap'][0].tolist()}"
+""", "expect": "persistence hands the detector's pixel array, trapped charge and time step, the two maps and the trap lists to the kernel and stores both results"}
+
+
+@unit("C15", "model.persistence")
+def full_persistence_model(u: Unit):
+    fi = u.fn(f"{CC}persistence.py::persistence")
+    kq = f"{CC}persistence.py::compute_persistence"
+    pq = "pyxel/data_structure/persistence.py"
+    lq = "pyxel/util/image.py::load_cropped_and_aligned_image"
+    for existing in (True, False):
+        for caps in (True, False):
+            cfg = D.install(Cfg("real"))
+            tag = f"{'existing' if existing else 'first'},{'caps' if caps else 'nocaps'}"
+            cfg.contracts[kq] = kernel_contract(kq, {}, lambda ex, args, kwargs: VTuple([arr2(ex, "persist_pix_out")[0], arr3(ex, "persist_trapped_out", 2)]))
+
+            def loader(ex, args, kwargs, fr):
+                fn_ = kwargs.get("filename")
+                which = "dens" if fn_ is ex.files["dens"] else ("cap" if fn_ is ex.files["cap"] else "other")
+                krec(ex, "loads").setdefault("calls", []).append((which, dict(kwargs)))
+                f = z3.Function(f"map_{which}", z3.IntSort(), z3.IntSort(), z3.RealSort())
+                if which == "dens":
+                    ex.st.assume(z3.And(f(G[0], G[1]) <= 1))
+                a = ex.st.alloc(HArr((R, C_), VDtype("float64"), lambda ix, f=f: VFloat(f(z_int(ix[0]), z_int(ix[1])))))
+                return a
+            cfg.contracts[lq] = Contract(lq, loader, "C20: the file fitted onto the detector")
+            cfg.lib_overrides["numpy.nan_to_num"] = lambda ex, f, args, kwargs, fr: args[0]          # real-number mode: no NaN / inf (stated)
+
+            def ctor(ex, args, kwargs, fr):
+                rec = krec(ex, "ctor")
+                rec["ctor"] = dict(kwargs)
+                me = args[0]
+                tci = ex.world.cls(f"{pq}::Trap")
+                traps = [ex.st.alloc(HObj(tci, {"charge": arrays.const_array(ex, (R, C_), VDtype("float64"), VInt(0))})) for _ in range(2)]
+                ex.st.cell(me).fields.update({"_trap_list": ex.st.alloc(HList(traps)), "_trapped_charge_array": arrays.const_array(ex, (2, R, C_), VDtype("float64"), VInt(0))})
+                rec["fresh_trapped"] = ex.st.cell(me).fields["_trapped_charge_array"]
+                return NONE
+            cfg.contracts[f"{pq}::Persistence.__init__"] = Contract(f"{pq}::Persistence.__init__", ctor, "Persistence(): all-zero trapped charge, one trap per entry")
+
+            def setup(ex, existing=existing, caps=caps):
+                det = D.mk_detector(ex, u, prior="fresh", cls_qual=f"{DET}cmos/cmos.py::CMOS")
+                st = ex.st
+                ex.pix_in, _ = arr2(ex, "pix0")
+                st.cell(ex.det_parts["pixel"]).fields["_array"] = ex.pix_in
+                rci = u.cls("pyxel/detectors/readout_properties.py::ReadoutProperties")
+                st.cell(det).fields["_readout_properties"] = st.alloc(HObj(rci, {"_time_step": VFloat(z3.Real("time_step")), "_time": VFloat(z3.Real("time"))}))
+                ex.trapped_in = None
+                if existing:
+                    sci, tci = u.cls(f"{pq}::Persistence"), u.cls(f"{pq}::Trap")
+                    traps = [st.alloc(HObj(tci, {"charge": arr2(ex, f"trap{i}_charge")[0]})) for i in range(2)]
+                    ex.trapped_in = arr3(ex, "trapped0", 2)
+                    st.cell(det).fields["_persistence"] = st.alloc(HObj(sci, {"_trap_list": st.alloc(HList(traps)), "_trapped_charge_array": ex.trapped_in}))
+                ex.snap = snapshot(ex)
+                ex.taus = [VFloat(z3.Real(f"tau{i}")) for i in range(2)]
+                ex.props = [VFloat(z3.Real(f"prop{i}")) for i in range(2)]
+                ex.files = {"dens": VStr(z3.String("densities_file")), "cap": VStr(z3.String("capacities_file"))}
+                return [det], {"trap_time_constants": st.alloc(HList(list(ex.taus))), "trap_proportions": st.alloc(HList(list(ex.props))), "trap_densities_filename": ex.files["dens"],
+                               "trap_capacities_filename": ex.files["cap"] if caps else NONE}
+            ps = u.paths(fi, setup, cfg, label=f"persistence[{tag}]")
+            n_ret = 0
+            for p in ps:
+                if p.kind != "return":
+                    continue          # a density map outside [0, 1] is refused (ValueError): fine
+                n_ret += 1
+                calls = krec(p.ex, "compute_persistence").get("calls", [])
+                ok = len(calls) == 1
+                c = calls[0] if ok else ([], {})
+                want_trapped = p.ex.trapped_in if existing else krec(p.ex, "ctor").get("fresh_trapped")
+                state_ok = z3.And(same_array(p, kw(c, "pixel_array"), p.ex.pix_in), same_array(p, kw(c, "all_trapped_charge"), want_trapped)) if ok and want_trapped is not None else z3.BoolVal(False)
+                u.oblige(p, f"model.persistence.kernel_gets_detector_state[{tag}]", z3.And(state_ok, to_real(kw(c, "delta_t")) == z3.Real("time_step")) if ok and kw(c, "delta_t") is not None else z3.BoolVal(False), {}, FULLP_REPLAY)
+                a1, a2 = (is_array_of(p, kw(c, "trap_time_constants"), p.ex.taus), is_array_of(p, kw(c, "trap_proportions"), p.ex.props)) if ok else (False, False)
+                u.oblige(p, f"model.persistence.kernel_gets_own_trap_lists[{tag}]", z3.And(a1, a2) if a1 is not False and a2 is not False else z3.BoolVal(False), {}, FULLP_REPLAY)
+                # the maps: densities of the densities file (clipped at 0), capacities of the capacities file (or none)
+                loads = krec(p.ex, "loads").get("calls", [])
+                which = [w_ for w_, _ in loads]
+                dm, cm = kw(c, "trap_densities_2d"), kw(c, "trap_capacities_2d")
+                md = z3.Function("map_dens", z3.IntSort(), z3.IntSort(), z3.RealSort())(G[0], G[1])
+                mc = z3.Function("map_cap", z3.IntSort(), z3.IntSort(), z3.RealSort())(G[0], G[1])
+                d_ok = (to_real(p.st.cell(dm).elem(G)) == z3.If(md >= 0, md, 0)) if ok and p.ex.is_arr(dm) else z3.BoolVal(False)
+                c_ok = ((to_real(p.st.cell(cm).elem(G)) == mc) if p.ex.is_arr(cm) else z3.BoolVal(False)) if caps else zb(isinstance(cm, VNone))
+                u.oblige(p, f"model.persistence.maps_of_the_named_files[{tag}]", z3.And(zb(which == (["dens", "cap"] if caps else ["dens"])), d_ok, c_ok), {"loads": str(which)}, FULLP_REPLAY)
+                out = D.frame_elem(p.st, D.bucket_array(p.st, p.ex.det_parts["pixel"]))
+                pers = p.st.cell(p.ex.det_parts["det"]).fields["_persistence"]
+                tr = p.st.cell(pers).fields.get("_trapped_charge_array") if isinstance(pers, VRef) else None
+                gk = z3.Int("g_trap")
+                stored = out is not None and p.ex.is_arr(tr) and len(p.st.cell(tr).shape) == 3
+                u.oblige(p, f"model.persistence.results_stored[{tag}]",
+                         z3.And(out == z3.Function("persist_pix_out", z3.IntSort(), z3.IntSort(), z3.RealSort())(G[0], G[1]),
+                                to_real(p.st.cell(tr).elem((gk, G[0], G[1]))) == z3.Function("persist_trapped_out", z3.IntSort(), z3.IntSort(), z3.IntSort(), z3.RealSort())(gk, G[0], G[1]))
+                         if stored else z3.BoolVal(False), {}, FULLP_REPLAY)
+                u.oblige(p, f"model.persistence.other_buckets_untouched[{tag}]", zb(same_others(p, p.ex.snap)), {}, FULLP_REPLAY)
+            u.cover(f"model.persistence.cover[{tag}]", [1] * n_ret, lambda _: True)
